@@ -908,10 +908,25 @@ func (s *Subscription) handleReaccess(t *rescache.Throttle) {
 	}
 
 	s.queueEvents(queueReasonReaccess)
-	s.loadAccess(func(a *rescache.Access) {
+	// The answer to an access request already in flight is outdated, as the
+	// request was sent before the reaccess. Access is then requested anew.
+	outdated := s.flags&flagAccessCalled != 0
+	var cb func(a *rescache.Access)
+	cb = func(a *rescache.Access) {
+		if outdated {
+			outdated = false
+			s.access = nil
+			if s.direct > 0 {
+				s.loadAccess(cb, t)
+				return
+			}
+			s.unqueueEvents(queueReasonReaccess)
+			return
+		}
 		s.validateAccess(a)
 		s.unqueueEvents(queueReasonReaccess)
-	}, t)
+	}
+	s.loadAccess(cb, t)
 }
 
 // validateAccess checks if subscription has get access, or else unsubscribes.
